@@ -500,4 +500,98 @@ example : FskSide { activeModem := Gen.SX127x_MODULATION_FSK } Chip.init ∧
   refine ⟨⟨Or.inl rfl, by decide⟩, ?_, by decide⟩
   exact plain_fsk _ (by decide) _ (by decide)
 
+/-! ### the constants of the header are the datasheet's
+
+The theorems above are generic in the constants regenerated from `include/*.h`: a setter is
+proved to store *its argument* in *its register*.  That the named register is the datasheet's
+address and the named enumerator the datasheet's encoding is a separate obligation, stated here
+with literals: the register addresses the model uses, and every enumerator a caller can pass to a
+configuration function (bandwidths and spreading factors: C13; the DIO mappings: C15). -/
+
+/-- register addresses (datasheet tables 41 and 42) -/
+theorem C09_register_map_is_datasheet :
+    Gen.REGFIFO = 0x00 ∧
+    Gen.REGOPMODE = 0x01 ∧
+    Gen.REGBITRATEMSB = 0x02 ∧
+    Gen.REGFDEVMSB = 0x04 ∧
+    Gen.REGFRFMSB = 0x06 ∧
+    Gen.REGPACONFIG = 0x09 ∧
+    Gen.REGPARAMP = 0x0a ∧
+    Gen.REGOCP = 0x0b ∧
+    Gen.REGLNA = 0x0c ∧
+    Gen.REGFIFOADDRPTR = 0x0d ∧
+    Gen.REGRXCONFIG = 0x0d ∧
+    Gen.REGFIFOTXBASEADDR = 0x0e ∧
+    Gen.REGRSSICONFIG = 0x0e ∧
+    Gen.REGRSSICOLLISION = 0x0f ∧
+    Gen.REGFIFORXCURRENTADDR = 0x10 ∧
+    Gen.REGRSSIVALUE_FSK = 0x11 ∧
+    Gen.REGIRQFLAGS = 0x12 ∧
+    Gen.REGRXBW = 0x12 ∧
+    Gen.REGAFCBW = 0x13 ∧
+    Gen.REGRXNBBYTES = 0x13 ∧
+    Gen.REGOOKPEAK = 0x14 ∧
+    Gen.REGOOKFIX = 0x15 ∧
+    Gen.REGOOKAVG = 0x16 ∧
+    Gen.REGPKTSNRVALUE = 0x19 ∧
+    Gen.REGPKTRSSIVALUE = 0x1a ∧
+    Gen.REGAFCMSB = 0x1b ∧
+    Gen.REGMODEMCONFIG1 = 0x1d ∧
+    Gen.REGMODEMCONFIG2 = 0x1e ∧
+    Gen.REGPREAMBLEDETECT = 0x1f ∧
+    Gen.REGPREAMBLEMSB = 0x20 ∧
+    Gen.REGPAYLOADLENGTH = 0x22 ∧
+    Gen.REGHOPPERIOD = 0x24 ∧
+    Gen.REGPREAMBLEMSB_FSK = 0x25 ∧
+    Gen.REGMODEMCONFIG3 = 0x26 ∧
+    Gen.REGSYNCCONFIG = 0x27 ∧
+    Gen.REGFEIMSB = 0x28 ∧
+    Gen.REGSYNCVALUE1 = 0x28 ∧
+    Gen.REGPACKETCONFIG1 = 0x30 ∧
+    Gen.REGDETECTOPTIMIZE = 0x31 ∧
+    Gen.REGPACKETCONFIG2 = 0x31 ∧
+    Gen.REGPAYLOADLENGTH_FSK = 0x32 ∧
+    Gen.REGNODEADRS = 0x33 ∧
+    Gen.REGBROADCASTADRS = 0x34 ∧
+    Gen.REGFIFOTHRESH = 0x35 ∧
+    Gen.REGSEQCONFIG1 = 0x36 ∧
+    Gen.REGDETECTIONTHRESHOLD = 0x37 ∧
+    Gen.REGTIMERRESOL = 0x38 ∧
+    Gen.REGSYNCWORD = 0x39 ∧
+    Gen.REGTIMER1COEF = 0x39 ∧
+    Gen.REGTIMER2COEF = 0x3a ∧
+    Gen.REGIMAGECAL = 0x3b ∧
+    Gen.REGTEMP = 0x3c ∧
+    Gen.REGIRQFLAGS1 = 0x3e ∧
+    Gen.REGIRQFLAGS2 = 0x3f ∧
+    Gen.REGDIOMAPPING1 = 0x40 ∧
+    Gen.REGDIOMAPPING2 = 0x41 ∧
+    Gen.REGVERSION = 0x42 ∧
+    Gen.REGPADAC = 0x4d ∧
+    Gen.REGBITRATEFRAC = 0x5d := by
+  decide
+
+/-- enumerator values of the public header, type by type, in declaration order -/
+theorem C09_enumerators_are_datasheet :
+    Gen.enum_sx127x_mode_t = [0x00, 0x01, 0x02, 0x03, 0x04, 0x05, 0x06, 0x07] ∧
+    Gen.enum_sx127x_modulation_t = [0x80, 0x00, 0x20] ∧
+    Gen.enum_sx127x_ook_peak_thresh_step_t = [0x00, 0x01, 0x02, 0x03, 0x04, 0x05, 0x06, 0x07] ∧
+    Gen.enum_sx127x_ook_avg_offset_t = [0x00, 0x04, 0x08, 0x0c] ∧
+    Gen.enum_sx127x_ook_avg_thresh_t = [0x00, 0x01, 0x02, 0x03] ∧
+    Gen.enum_sx127x_ook_peak_thresh_dec_t = [0x00, 0x20, 0x40, 0x60, 0x80, 0xa0, 0xc0, 0xe0] ∧
+    Gen.enum_sx127x_rx_trigger_t = [0x00, 0x01, 0x06, 0x07] ∧
+    Gen.enum_sx127x_preamble_type_t = [0x20, 0x00] ∧
+    Gen.enum_sx127x_rssi_smoothing_t = [0x00, 0x01, 0x02, 0x03, 0x04, 0x05, 0x06, 0x07] ∧
+    Gen.enum_sx127x_packet_encoding_t = [0x00, 0x20, 0x40] ∧
+    Gen.enum_sx127x_crc_type_t = [0x08, 0x18, 0x19] ∧
+    Gen.enum_sx127x_packet_format_t = [0x00, 0x80] ∧
+    Gen.enum_sx127x_address_filtering_t = [0x00, 0x02, 0x04] ∧
+    Gen.enum_sx127x_gain_t = [0x20, 0x40, 0x60, 0x80, 0xa0, 0xc0, 0x00] ∧
+    Gen.enum_sx127x_fsk_data_shaping_t = [0x00, 0x20, 0x40, 0x60] ∧
+    Gen.enum_sx127x_ook_data_shaping_t = [0x00, 0x20, 0x40] ∧
+    Gen.enum_sx127x_pa_ramp_t = [0x00, 0x01, 0x02, 0x03, 0x04, 0x05, 0x06, 0x07, 0x08, 0x09, 0x0a, 0x0b, 0x0c, 0x0d, 0x0e, 0x0f] ∧
+    Gen.enum_sx127x_cr_t = [0x02, 0x04, 0x06, 0x08] ∧
+    Gen.enum_sx127x_pa_pin_t = [0x00, 0x80] := by
+  decide
+
 end Sx
